@@ -37,7 +37,9 @@ def cases(draw, est=None, max_n=20000):
             # "all fractions in (0,1)": also fractions holding less than one sample point, and nearly everything
             "fraction": draw(st.one_of(st.sampled_from([0.68268, 0.95449, 0.5]), st.floats(0.05, 0.95), st.sampled_from([1e-4, 1e-3, 3e-3, 0.01, 0.99, 0.997]))),
             # ... and fractions that hold only a handful of sample points (the fraction is then this count over the sample size)
-            "few_points": draw(st.one_of(st.none(), st.none(), st.none(), st.integers(1, 40)))}
+            "few_points": draw(st.one_of(st.none(), st.none(), st.none(), st.integers(1, 40))),
+            # the KDE's other bandwidth rule (cross-validation gives narrower kernels, hence steeper flanks at a sharp edge)
+            "kde_cv": draw(st.sampled_from([False, False, False, True]))}
 
 
 def fraction_of(case):
@@ -78,7 +80,9 @@ def fit(case, sample):
     with warnings.catch_warnings():
         warnings.simplefilter("ignore")
         with np.errstate(all="ignore"):
-            return GaussianKDE(sample) if case["estimator"] == "kde" else UnimodalPdf(sample)
+            if case["estimator"] == "kde":
+                return GaussianKDE(sample, cross_validation=True) if (case.get("kde_cv") and case["n"] <= 3000) else GaussianKDE(sample)
+            return UnimodalPdf(sample)
 
 
 def loc_class(case):
@@ -250,6 +254,8 @@ def body_core(case, ctx):
     ctx.nontrivial(nontrivial(case))
     ctx.event(f"est={kind}")
     ctx.event("family=" + case["family"])
+    if case["estimator"] == "kde" and case.get("kde_cv") and case["n"] <= 3000:
+        ctx.event("kde bandwidth by cross-validation")
     ctx.event(lc)
     ctx.event("tail=" + ("left" if case.get("mirror") else "right") if case["family"] in ("skewnorm", "gamma", "lognormal", "halfnormal", "gamma-low", "lognormal-wide") else "symmetric-family")
 
